@@ -43,7 +43,7 @@ func init() {
 		Kinds: []core.Kind{
 			core.ReplayOf("hist", c13CheckHist),
 		},
-		Rule: "explicit-state BFS over histories of Add(i,v), v in {-2,0,3,1e9+1}, and Combine(i,j), i!=j, on A zero-valued accumulators; " +
+		Rule: "explicit-state BFS over histories of Add(i,v), v in {-2,0,3,1e9+1}, and Combine(i,j) (i==j included: an accumulator combined with itself), on A zero-valued accumulators; " +
 			"a state is (bit pattern of every StreamStats field read by reflection, model multiset per accumulator), de-duplicated on that pair; " +
 			"plus every stream of length L, every split into k parts (empty parts included) and every merge order (all k!(k-1)! sequences of pairwise Combine). " +
 			"A state/case is non-trivial when some accumulator holds >=2 values after at least one Combine, or a Combine had an empty side.",
@@ -51,7 +51,6 @@ func init() {
 		Assumptions: []string{
 			"value alphabet {-2,0,3,1e9+1} and the structured long streams stand for 'all values'",
 			"tolerances: Total 2n*eps*sum|x|, Mean 8n*eps*max|x|, RMS from 8n*eps*max x^2, Variance 8n*eps*var*sqrt(1+mean^2/varpop); exact 0 where the exact value is 0",
-			"s.Combine(s) (an accumulator combined with itself) is outside 'any two StreamStats'",
 		},
 	})
 }
@@ -181,12 +180,9 @@ func c13CheckHist(c *C13Hist, r *core.Rec) {
 			acc[op.I].Add(op.V)
 			model[op.I] = append(model[op.I], op.V)
 		case "combine":
-			if op.I == op.J {
-				r.Skip("self-combine")
-				return
-			}
+			// op.I == op.J is s.Combine(&s): both operands hold the same sequence
 			acc[op.I].Combine(&acc[op.J])
-			model[op.I] = append(model[op.I], model[op.J]...)
+			model[op.I] = append(model[op.I], append([]float64(nil), model[op.J]...)...)
 		}
 		for i := range acc {
 			c13CheckAcc(r, &acc[i], ref.ExactMoments(model[i]), fmt.Sprintf("after op %d acc %d", k, i))
@@ -215,9 +211,8 @@ func c13Ops(A int) []c13OpDef {
 	}
 	for i := 0; i < A; i++ {
 		for j := 0; j < A; j++ {
-			if i != j {
-				ops = append(ops, c13OpDef{C13Op{Op: "combine", I: i, J: j}, -1})
-			}
+			// i == j included since round 10: an accumulator combined with itself
+			ops = append(ops, c13OpDef{C13Op{Op: "combine", I: i, J: j}, -1})
 		}
 	}
 	return ops
